@@ -102,7 +102,9 @@ def run(tier):
     shutil.rmtree(d, ignore_errors=True)
     os.makedirs(d)
     names = []
-    lens = list(range(1, 256)) if tier == "thorough" else [1, 2, 3, 7, 8, 9, 15, 16, 17, 31, 32, 33, 63, 64, 100, 127, 128, 200, 254, 255]
+    # every length 1..255 in both tiers: d_reclen is rounded up to 8, so every residue of the name
+    # length modulo 8 (and every record size) has to occur (a round-3 mutant needed length 5 mod 8)
+    lens = list(range(1, 256))
     for n in lens:
         nm = bytes([rng.choice([97, 98, 46, 200, 255, 32]) for _ in range(n - 1)] + [97 + (n % 26)])
         if nm in (b".", b".."):
